@@ -1,7 +1,874 @@
+// Engine C14, part 2 — chat messages (schema.ConcatMessages, ConcatMessageStream,
+// compose.concatStreamReader on *Message and []*Message, a compose chain that has to turn
+// a stream into a value).  Mirrors Model/ConcatMsg.v.
 package main
 
-import "verif/harness/lib"
+import (
+	"context"
+	"fmt"
+	"reflect"
+	"sort"
+	"strings"
 
-// Part 2 (chat messages) — placeholder until Model/ConcatMsg.v exists.
-func genMsgCase(r *lib.Rng, tier string) *Case { return genGeneric(r, tier) }
-func runMsg(c *Case) lib.Result              { panic("msg cases not implemented") }
+	"github.com/cloudwego/eino/compose"
+	"github.com/cloudwego/eino/schema"
+
+	"verif/harness/lib"
+)
+
+// ---------------------------------------------------------------- case representation
+
+type TC struct {
+	Idx   *int64 `json:"idx"`
+	ID    string `json:"id"`
+	Type  string `json:"type"`
+	Name  string `json:"name"`
+	Args  string `json:"args"`
+	Extra int    `json:"extra"` // 0 = nil Extra map, n > 0 = {"t": n}
+}
+
+type Meta struct {
+	Finish string    `json:"finish"`
+	Usage  *[3]int64 `json:"usage"`
+	HasLP  bool      `json:"has_lp"`
+	LP     []string  `json:"lp"` // LogProbs.Content tokens (nil vs empty kept)
+}
+
+type Msg struct {
+	Nil     bool     `json:"nil,omitempty"`
+	Role    string   `json:"role"`
+	Name    string   `json:"name"`
+	TCID    string   `json:"tcid"`
+	Content string   `json:"content"`
+	Multi   []string `json:"multi"` // nil vs empty kept
+	TCs     []TC     `json:"tcs"`   // nil vs empty kept
+	Meta    *Meta    `json:"meta"`
+	Extra   *CV      `json:"extra"` // nil = nil map; {K:"map"} possibly with zero keys
+}
+
+const sentinel = "<<SENTINEL>>"
+const spare = 3
+
+// toGo builds the schema.Message. Every slice gets spare capacity filled with sentinels
+// so that an append into a chunk's backing array is detected afterwards.
+func (m *Msg) toGo() *schema.Message {
+	if m == nil || m.Nil {
+		return nil
+	}
+	out := &schema.Message{Role: schema.RoleType(m.Role), Name: m.Name, ToolCallID: m.TCID, Content: m.Content}
+	if m.Multi != nil {
+		s := make([]schema.ChatMessagePart, len(m.Multi), len(m.Multi)+spare)
+		for i, t := range m.Multi {
+			s[i] = schema.ChatMessagePart{Type: schema.ChatMessagePartTypeText, Text: t}
+		}
+		full := s[:cap(s)]
+		for i := len(s); i < cap(s); i++ {
+			full[i] = schema.ChatMessagePart{Text: sentinel}
+		}
+		out.MultiContent = s
+	}
+	if m.TCs != nil {
+		s := make([]schema.ToolCall, len(m.TCs), len(m.TCs)+spare)
+		for i, t := range m.TCs {
+			tc := schema.ToolCall{ID: t.ID, Type: t.Type, Function: schema.FunctionCall{Name: t.Name, Arguments: t.Args}}
+			if t.Idx != nil {
+				v := int(*t.Idx)
+				tc.Index = &v
+			}
+			if t.Extra > 0 {
+				tc.Extra = map[string]any{"t": t.Extra}
+			}
+			s[i] = tc
+		}
+		full := s[:cap(s)]
+		for i := len(s); i < cap(s); i++ {
+			full[i] = schema.ToolCall{ID: sentinel}
+		}
+		out.ToolCalls = s
+	}
+	if m.Meta != nil {
+		rm := &schema.ResponseMeta{FinishReason: m.Meta.Finish}
+		if m.Meta.Usage != nil {
+			u := m.Meta.Usage
+			rm.Usage = &schema.TokenUsage{PromptTokens: int(u[0]), CompletionTokens: int(u[1]), TotalTokens: int(u[2])}
+		}
+		if m.Meta.HasLP {
+			lp := &schema.LogProbs{}
+			if m.Meta.LP != nil {
+				s := make([]schema.LogProb, len(m.Meta.LP), len(m.Meta.LP)+spare)
+				for i, t := range m.Meta.LP {
+					s[i] = schema.LogProb{Token: t, LogProb: -float64(len(t))}
+				}
+				full := s[:cap(s)]
+				for i := len(s); i < cap(s); i++ {
+					full[i] = schema.LogProb{Token: sentinel}
+				}
+				lp.Content = s
+			}
+			rm.LogProbs = lp
+		}
+		out.ResponseMeta = rm
+	}
+	if m.Extra != nil {
+		out.Extra = m.Extra.toGo().(map[string]any)
+	}
+	return out
+}
+
+// sentinelsIntact checks the spare capacity of every slice of a message built by toGo.
+func sentinelsIntact(g *schema.Message) string {
+	if g == nil {
+		return ""
+	}
+	if s := g.MultiContent; s != nil {
+		for _, p := range s[:cap(s)][len(s):] {
+			if p.Text != sentinel {
+				return "MultiContent backing array written"
+			}
+		}
+	}
+	if s := g.ToolCalls; s != nil {
+		for _, p := range s[:cap(s)][len(s):] {
+			if p.ID != sentinel {
+				return "ToolCalls backing array written"
+			}
+		}
+	}
+	if g.ResponseMeta != nil && g.ResponseMeta.LogProbs != nil {
+		if s := g.ResponseMeta.LogProbs.Content; s != nil {
+			for _, p := range s[:cap(s)][len(s):] {
+				if p.Token != sentinel {
+					return "LogProbs.Content backing array written"
+				}
+			}
+		}
+	}
+	return ""
+}
+
+func fromGoMsg(g *schema.Message) *Msg {
+	if g == nil {
+		return &Msg{Nil: true}
+	}
+	m := &Msg{Role: string(g.Role), Name: g.Name, TCID: g.ToolCallID, Content: g.Content}
+	if g.MultiContent != nil {
+		m.Multi = []string{}
+		for _, p := range g.MultiContent {
+			m.Multi = append(m.Multi, p.Text)
+		}
+	}
+	if g.ToolCalls != nil {
+		m.TCs = []TC{}
+		for _, t := range g.ToolCalls {
+			tc := TC{ID: t.ID, Type: t.Type, Name: t.Function.Name, Args: t.Function.Arguments}
+			if t.Index != nil {
+				v := int64(*t.Index)
+				tc.Idx = &v
+			}
+			if t.Extra != nil {
+				if n, ok := t.Extra["t"].(int); ok && len(t.Extra) == 1 && n > 0 {
+					tc.Extra = n
+				} else {
+					tc.Extra = -1
+				}
+			}
+			m.TCs = append(m.TCs, tc)
+		}
+	}
+	if g.ResponseMeta != nil {
+		mm := &Meta{Finish: g.ResponseMeta.FinishReason}
+		if u := g.ResponseMeta.Usage; u != nil {
+			mm.Usage = &[3]int64{int64(u.PromptTokens), int64(u.CompletionTokens), int64(u.TotalTokens)}
+		}
+		if lp := g.ResponseMeta.LogProbs; lp != nil {
+			mm.HasLP = true
+			if lp.Content != nil {
+				mm.LP = []string{}
+				for _, p := range lp.Content {
+					mm.LP = append(mm.LP, p.Token)
+				}
+			}
+		}
+		m.Meta = mm
+	}
+	if g.Extra != nil {
+		m.Extra = fromGo(g.Extra)
+	}
+	return m
+}
+
+// normMsg: nil and empty slices / maps are the same value
+func normMsg(m *Msg) *Msg {
+	if m == nil {
+		return nil
+	}
+	c := *m
+	if c.Multi == nil {
+		c.Multi = []string{}
+	}
+	if c.TCs == nil {
+		c.TCs = []TC{}
+	}
+	if c.Meta != nil {
+		mm := *c.Meta
+		if mm.HasLP && mm.LP == nil {
+			mm.LP = []string{}
+		}
+		c.Meta = &mm
+	}
+	if c.Extra == nil {
+		c.Extra = &CV{K: "map", M: map[string]*CV{}}
+	} else {
+		c.Extra = normalize(c.Extra)
+	}
+	return &c
+}
+
+// ---------------------------------------------------------------- Gallina printers
+
+func (t TC) coq() string {
+	idx := "None"
+	if t.Idx != nil {
+		idx = lib.CoqSome(lib.CoqZ(*t.Idx))
+	}
+	ex := t.Extra
+	if ex < 0 {
+		ex = 999999
+	}
+	return lib.CoqApp("mkTC", idx, lib.CoqStr(t.ID), lib.CoqStr(t.Type), lib.CoqStr(t.Name), lib.CoqStr(t.Args), lib.CoqN(uint64(ex)))
+}
+
+func (m *Msg) coq() string {
+	if m == nil || m.Nil {
+		return "None"
+	}
+	tcs := make([]string, len(m.TCs))
+	for i, t := range m.TCs {
+		tcs[i] = t.coq()
+	}
+	meta := "None"
+	if m.Meta != nil {
+		us := "None"
+		if u := m.Meta.Usage; u != nil {
+			us = lib.CoqSome(lib.CoqApp("mkUsage", lib.CoqZ(u[0]), lib.CoqZ(u[1]), lib.CoqZ(u[2])))
+		}
+		lp := "None"
+		if m.Meta.HasLP {
+			lp = lib.CoqSome(lib.CoqStrList(m.Meta.LP))
+		}
+		meta = lib.CoqSome(lib.CoqApp("mkMeta", lib.CoqStr(m.Meta.Finish), us, lp))
+	}
+	extra := "[]"
+	if m.Extra != nil {
+		keys := make([]string, 0, len(m.Extra.M))
+		for k := range m.Extra.M {
+			keys = append(keys, k)
+		}
+		sort.Strings(keys)
+		items := make([]string, len(keys))
+		for i, k := range keys {
+			items[i] = lib.CoqPair(lib.CoqStr(k), m.Extra.M[k].coq())
+		}
+		extra = lib.CoqList(items)
+	}
+	return lib.CoqSome(lib.CoqApp("mkMsg", lib.CoqStr(m.Role), lib.CoqStr(m.Name), lib.CoqStr(m.TCID), lib.CoqStr(m.Content),
+		lib.CoqStrList(m.Multi), lib.CoqList(tcs), meta, extra))
+}
+
+func msgsCoq(ms []*Msg) string {
+	out := make([]string, len(ms))
+	for i, m := range ms {
+		out[i] = m.coq()
+	}
+	return lib.CoqList(out)
+}
+
+// ---------------------------------------------------------------- observations
+
+type MObs struct {
+	Class string `json:"class"` // val | err | panic
+	Val   *Msg   `json:"val,omitempty"`
+	List  []*Msg `json:"list,omitempty"`
+	Msg   string `json:"msg,omitempty"`
+}
+
+func (o MObs) coqMsg() string {
+	switch o.Class {
+	case "val":
+		return lib.CoqApp("MVal", o.Val.coq())
+	case "err":
+		return "MErr"
+	}
+	return "MPanic"
+}
+
+func (o MObs) coqList() string {
+	switch o.Class {
+	case "val":
+		return lib.CoqApp("LVal", msgsCoq(o.List))
+	case "err":
+		return "LErr"
+	}
+	return "LPanic"
+}
+
+func mobsEqual(a, b MObs) bool {
+	if a.Class != b.Class {
+		return false
+	}
+	if a.Class != "val" {
+		return true
+	}
+	if !reflect.DeepEqual(normMsg(a.Val), normMsg(b.Val)) {
+		return false
+	}
+	if len(a.List) != len(b.List) {
+		return false
+	}
+	for i := range a.List {
+		if !reflect.DeepEqual(normMsg(a.List[i]), normMsg(b.List[i])) {
+			return false
+		}
+	}
+	return true
+}
+
+const (
+	apiConcatMessages = 0 // schema.ConcatMessages on the slice (any length)
+	apiMessageStream  = 1 // schema.ConcatMessageStream
+	apiStreamReader   = 2 // compose.concatStreamReader[*schema.Message]
+	apiChain          = 3 // compose chain: streamable lambda, Invoke
+)
+
+var apiNames = []string{"ConcatMessages", "ConcatMessageStream", "concatStreamReader", "chain.Invoke"}
+
+func callMsgAPI(api int, ms []*schema.Message) (o MObs) {
+	var out *schema.Message
+	var err error
+	p := lib.Recover(func() {
+		switch api {
+		case apiConcatMessages:
+			out, err = schema.ConcatMessages(ms)
+		case apiMessageStream:
+			out, err = schema.ConcatMessageStream(schema.StreamReaderFromArray(ms))
+		case apiStreamReader:
+			out, err = compose.VerifConcatStreamReader(schema.StreamReaderFromArray(ms))
+		default:
+			ctx := context.Background()
+			ch := compose.NewChain[string, *schema.Message]()
+			ch.AppendLambda(compose.StreamableLambda(func(ctx context.Context, in string) (*schema.StreamReader[*schema.Message], error) {
+				return schema.StreamReaderFromArray(ms), nil
+			}))
+			r, cerr := ch.Compile(ctx)
+			if cerr != nil {
+				panic("harness: chain does not compile: " + cerr.Error())
+			}
+			out, err = r.Invoke(ctx, "")
+		}
+	})
+	if p != nil {
+		return MObs{Class: "panic", Msg: fmt.Sprint(p)}
+	}
+	if err != nil {
+		return MObs{Class: "err", Msg: err.Error()}
+	}
+	return MObs{Class: "val", Val: fromGoMsg(out)}
+}
+
+func callListAPI(api int, ls [][]*schema.Message) (o MObs) {
+	var out []*schema.Message
+	var err error
+	p := lib.Recover(func() {
+		if api == 0 {
+			out, err = compose.VerifConcatStreamReader(schema.StreamReaderFromArray(ls))
+		} else {
+			out, err = compose.VerifConcatItems(ls)
+		}
+	})
+	if p != nil {
+		return MObs{Class: "panic", Msg: fmt.Sprint(p)}
+	}
+	if err != nil {
+		return MObs{Class: "err", Msg: err.Error()}
+	}
+	o = MObs{Class: "val", List: []*Msg{}}
+	for _, g := range out {
+		o.List = append(o.List, fromGoMsg(g))
+	}
+	return o
+}
+
+func buildMsgs(ms []*Msg) []*schema.Message {
+	out := make([]*schema.Message, len(ms))
+	for i, m := range ms {
+		out[i] = m.toGo()
+	}
+	return out
+}
+
+// runOn builds fresh Go messages from the case, runs the API, and verifies that the
+// inputs were not written to (field values and the spare capacity of every slice).
+func runOn(api int, ms []*Msg) (MObs, string) {
+	gs := buildMsgs(ms)
+	o := callMsgAPI(api, gs)
+	for i, g := range gs {
+		if why := sentinelsIntact(g); why != "" {
+			return o, fmt.Sprintf("input chunk %d: %s", i, why)
+		}
+		if !reflect.DeepEqual(fromGoMsg(g), fromGoMsg(ms[i].toGo())) {
+			return o, fmt.Sprintf("input chunk %d was modified: now %s", i, js(fromGoMsg(g)))
+		}
+	}
+	return o, ""
+}
+
+func runListOn(api int, ls [][]*Msg) (MObs, string) {
+	gs := make([][]*schema.Message, len(ls))
+	for i, l := range ls {
+		if l != nil {
+			gs[i] = buildMsgs(l)
+		}
+	}
+	o := callListAPI(api, gs)
+	for i, l := range gs {
+		if len(l) != len(ls[i]) {
+			return o, fmt.Sprintf("input list %d changed length", i)
+		}
+		for j, g := range l {
+			if why := sentinelsIntact(g); why != "" {
+				return o, fmt.Sprintf("input list %d message %d: %s", i, j, why)
+			}
+			if !reflect.DeepEqual(fromGoMsg(g), fromGoMsg(ls[i][j].toGo())) {
+				return o, fmt.Sprintf("input list %d message %d was modified", i, j)
+			}
+		}
+	}
+	return o, ""
+}
+
+// ---------------------------------------------------------------- run + direct oracle
+
+func runMsg(c *Case) lib.Result {
+	if c.Kind == "msglist" {
+		return runMsgList(c)
+	}
+	res := lib.Result{}
+	o, mut := runOn(c.API, c.Msgs)
+	res.Obs = o
+	n := len(c.Msgs)
+	res.Tags = []string{"kind:msg", "api:" + apiNames[c.API], "class:" + o.Class, fmt.Sprintf("chunks:%d", n)}
+	res.Tags = append(res.Tags, msgFeatureTags(c.Msgs)...)
+	res.Nontrivial = n >= 2
+	api := 1
+	if c.API == apiConcatMessages {
+		api = 0
+	}
+	res.CoqTerm = lib.CoqApp("CaseMsg", lib.CoqN(uint64(api)), msgsCoq(c.Msgs), o.coqMsg())
+
+	fail := func(sig, format string, a ...any) {
+		if res.Oracle == "" {
+			res.Oracle = fmt.Sprintf(format, a...)
+			res.Sig = sig
+		}
+	}
+	if mut != "" {
+		fail("msg-input-mutated", "%s: %s", apiNames[c.API], mut)
+	}
+	apis := []int{apiConcatMessages, apiMessageStream, apiStreamReader}
+	if c.Chain {
+		apis = append(apis, apiChain)
+	}
+	obs := map[int]MObs{}
+	for _, a := range apis {
+		oa, m := runOn(a, c.Msgs)
+		obs[a] = oa
+		if oa.Class == "panic" {
+			fail("msg-panic", "%s panicked: %s", apiNames[a], oa.Msg)
+		}
+		if m != "" {
+			fail("msg-input-mutated", "%s: %s", apiNames[a], m)
+		}
+		for rep := 0; rep < 2; rep++ {
+			if o2, _ := runOn(a, c.Msgs); !mobsEqual(oa, o2) {
+				fail("msg-nondet", "%s: non-deterministic result: %s vs %s", apiNames[a], js(oa), js(o2))
+			}
+		}
+	}
+	if !mobsEqual(o, obs[c.API]) {
+		fail("msg-nondet", "%s: non-deterministic result", apiNames[c.API])
+	}
+	// all stream-level entry points agree; with >= 2 chunks they agree with ConcatMessages
+	for _, a := range apis[2:] {
+		if !mobsEqual(obs[apiMessageStream], obs[a]) {
+			fail("msg-api-disagree", "ConcatMessageStream and %s disagree: %s vs %s", apiNames[a], js(obs[apiMessageStream]), js(obs[a]))
+		}
+	}
+	if n >= 2 && !mobsEqual(obs[apiConcatMessages], obs[apiMessageStream]) {
+		fail("msg-api-disagree", "ConcatMessages and ConcatMessageStream disagree on %d chunks", n)
+	}
+	// re-chunking: concatenate any segment [i,j) first, splice the result in, concatenate again
+	for _, a := range []int{apiConcatMessages, apiStreamReader} {
+		whole := obs[a]
+		for i := 0; i < n && res.Oracle == ""; i++ {
+			for j := i + 1; j <= n && res.Oracle == ""; j++ {
+				if i == 0 && j == n {
+					continue
+				}
+				seg, _ := runOn(a, c.Msgs[i:j])
+				sig := "msg-rechunk"
+				if i > 0 {
+					sig = "msg-rechunk-mid"
+				}
+				if seg.Class != "val" {
+					if whole.Class == "val" {
+						fail(sig, "%s: chunks [%d,%d) fail alone (%s) but the whole list concatenates", apiNames[a], i, j, seg.Msg)
+					}
+					continue
+				}
+				spliced := append(append(append([]*Msg{}, c.Msgs[:i]...), seg.Val), c.Msgs[j:]...)
+				o2, _ := runOn(a, spliced)
+				if !mobsEqual(whole, o2) {
+					fail(sig, "%s: concatenating chunks [%d,%d) first changes the result: whole=%s split=%s", apiNames[a], i, j, js(whole), js(o2))
+				}
+			}
+		}
+	}
+	// order: content is the arrival-order concatenation
+	if w := obs[apiConcatMessages]; w.Class == "val" {
+		var sb strings.Builder
+		for _, m := range c.Msgs {
+			sb.WriteString(m.Content)
+		}
+		if w.Val.Content != sb.String() {
+			fail("msg-order", "content %q is not the arrival-order concatenation %q", w.Val.Content, sb.String())
+		}
+		if why := toolCallOrder(c.Msgs, w.Val); why != "" {
+			fail("msg-order", "%s", why)
+		}
+	}
+	return res
+}
+
+// toolCallOrder checks the result's tool calls against the specification in the
+// property text: fragments merged by index (ascending, one call per index, arguments in
+// arrival order), calls without index kept in arrival order before them.
+func toolCallOrder(in []*Msg, out *Msg) string {
+	var flat []TC
+	for _, m := range in {
+		flat = append(flat, m.TCs...)
+	}
+	var nilArgs []string
+	args := map[int64]string{}
+	for _, t := range flat {
+		if t.Idx == nil {
+			nilArgs = append(nilArgs, t.Args+"|"+t.ID)
+		} else {
+			args[*t.Idx] += t.Args
+		}
+	}
+	k := 0
+	var prev *int64
+	for _, t := range out.TCs {
+		if t.Idx == nil {
+			if prev != nil {
+				return "a call without index follows an indexed call"
+			}
+			if k >= len(nilArgs) || nilArgs[k] != t.Args+"|"+t.ID {
+				return "calls without index are not kept in arrival order"
+			}
+			k++
+			continue
+		}
+		if prev != nil && *prev >= *t.Idx {
+			return "indexed calls are not strictly ascending"
+		}
+		v := *t.Idx
+		prev = &v
+		want, ok := args[*t.Idx]
+		if !ok {
+			return fmt.Sprintf("index %d appears from nowhere", *t.Idx)
+		}
+		if want != t.Args {
+			return fmt.Sprintf("arguments of index %d are %q, arrival order gives %q", *t.Idx, t.Args, want)
+		}
+		delete(args, *t.Idx)
+	}
+	if k != len(nilArgs) || len(args) != 0 {
+		return "tool calls were lost"
+	}
+	return ""
+}
+
+func runMsgList(c *Case) lib.Result {
+	res := lib.Result{}
+	o, mut := runListOn(0, c.Lists)
+	res.Obs = o
+	n := len(c.Lists)
+	res.Tags = []string{"kind:msglist", "class:" + o.Class, fmt.Sprintf("chunks:%d", n)}
+	res.Nontrivial = n >= 2
+	ls := make([]string, n)
+	for i, l := range c.Lists {
+		ls[i] = msgsCoq(l)
+	}
+	res.CoqTerm = lib.CoqApp("CaseMsgList", lib.CoqList(ls), o.coqList())
+	fail := func(sig, format string, a ...any) {
+		if res.Oracle == "" {
+			res.Oracle = fmt.Sprintf(format, a...)
+			res.Sig = sig
+		}
+	}
+	if o.Class == "panic" {
+		fail("msglist-panic", "concatStreamReader[[]*Message] panicked: %s", o.Msg)
+	}
+	if mut != "" {
+		fail("msglist-input-mutated", "%s", mut)
+	}
+	for rep := 0; rep < 2; rep++ {
+		if o2, _ := runListOn(0, c.Lists); !mobsEqual(o, o2) {
+			fail("msglist-nondet", "non-deterministic result")
+		}
+	}
+	if n >= 2 {
+		if o2, _ := runListOn(1, c.Lists); !mobsEqual(o, o2) {
+			fail("msglist-api-disagree", "ConcatItems and concatStreamReader disagree")
+		}
+	}
+	for i := 0; i < n && res.Oracle == ""; i++ {
+		for j := i + 1; j <= n && res.Oracle == ""; j++ {
+			if i == 0 && j == n {
+				continue
+			}
+			seg, _ := runListOn(0, c.Lists[i:j])
+			sig := "msglist-rechunk"
+			if i > 0 {
+				sig = "msglist-rechunk-mid"
+			}
+			if seg.Class != "val" {
+				if o.Class == "val" {
+					fail(sig, "lists [%d,%d) fail alone but the whole concatenates", i, j)
+				}
+				continue
+			}
+			spliced := append(append(append([][]*Msg{}, c.Lists[:i]...), seg.List), c.Lists[j:]...)
+			if o2, _ := runListOn(0, spliced); !mobsEqual(o, o2) {
+				fail(sig, "concatenating lists [%d,%d) first changes the result: whole=%s split=%s", i, j, js(o), js(o2))
+			}
+		}
+	}
+	return res
+}
+
+func msgFeatureTags(ms []*Msg) []string {
+	var nilMsg, tcs, nilIdx, dupInChunk, meta, negUsage, lp, extra, multi bool
+	for _, m := range ms {
+		if m.Nil {
+			nilMsg = true
+			continue
+		}
+		seen := map[int64]bool{}
+		for _, t := range m.TCs {
+			tcs = true
+			if t.Idx == nil {
+				nilIdx = true
+			} else {
+				if seen[*t.Idx] {
+					dupInChunk = true
+				}
+				seen[*t.Idx] = true
+			}
+		}
+		if m.Meta != nil {
+			meta = true
+			if u := m.Meta.Usage; u != nil && (u[0] < 0 || u[1] < 0 || u[2] < 0) {
+				negUsage = true
+			}
+			lp = lp || m.Meta.HasLP
+		}
+		extra = extra || (m.Extra != nil && len(m.Extra.M) > 0)
+		multi = multi || len(m.Multi) > 0
+	}
+	var out []string
+	for name, b := range map[string]bool{"nil-chunk": nilMsg, "toolcalls": tcs, "nil-index": nilIdx, "dup-index-in-chunk": dupInChunk,
+		"meta": meta, "neg-usage": negUsage, "logprobs": lp, "extra": extra, "multi": multi} {
+		if b {
+			out = append(out, "feat:"+name)
+		}
+	}
+	sort.Strings(out)
+	return out
+}
+
+// ---------------------------------------------------------------- generator
+
+type msgProfile struct {
+	role, name, tcid string
+	keyTypes         map[string]int
+	depth            int
+}
+
+func pickConsistent(r *lib.Rng, base string, others []string) string {
+	switch {
+	case r.Chance(1, 2):
+		return ""
+	case r.Chance(1, 25):
+		return r.Pick(others)
+	}
+	return base
+}
+
+var idxPool = []int64{0, 0, 1, 1, 2, 5, -1}
+var finishPool = []string{"", "", "stop", "length", "tool_calls"}
+
+func genTC(r *lib.Rng) TC {
+	t := TC{Args: r.Pick(strPool)}
+	if !r.Chance(1, 6) {
+		v := idxPool[r.Intn(len(idxPool))]
+		t.Idx = &v
+		if r.Chance(1, 3) {
+			t.ID = fmt.Sprintf("call_%d", v)
+		}
+		if r.Chance(1, 3) {
+			t.Name = fmt.Sprintf("fn%d", v)
+		}
+	} else {
+		if r.Chance(1, 2) {
+			t.ID = r.Pick([]string{"n1", "n2"})
+		}
+		if r.Chance(1, 2) {
+			t.Name = "fnil"
+		}
+	}
+	if r.Chance(1, 3) {
+		t.Type = "function"
+	}
+	if r.Chance(1, 30) {
+		t.ID = "other_id"
+	}
+	if r.Chance(1, 40) {
+		t.Type = "other_type"
+	}
+	if r.Chance(1, 40) {
+		t.Name = "other_fn"
+	}
+	if r.Chance(1, 4) {
+		t.Extra = r.Range(1, 3)
+	}
+	return t
+}
+
+func genMsg(r *lib.Rng, p *msgProfile) *Msg {
+	if r.Chance(1, 40) {
+		return &Msg{Nil: true}
+	}
+	m := &Msg{
+		Role:    pickConsistent(r, p.role, []string{"user", "tool", "assistant"}),
+		Name:    pickConsistent(r, p.name, []string{"bob", "alice"}),
+		TCID:    pickConsistent(r, p.tcid, []string{"tc9", "tc1"}),
+		Content: r.Pick(strPool),
+	}
+	switch {
+	case r.Chance(1, 10):
+		m.Multi = []string{r.Pick([]string{"p1", "p2", "p3"})}
+		if r.Chance(1, 2) {
+			m.Multi = append(m.Multi, "q")
+		}
+	case r.Chance(1, 15):
+		m.Multi = []string{}
+	}
+	switch {
+	case r.Chance(1, 2):
+		nt := r.Range(1, 3)
+		m.TCs = []TC{}
+		for i := 0; i < nt; i++ {
+			m.TCs = append(m.TCs, genTC(r))
+		}
+	case r.Chance(1, 10):
+		m.TCs = []TC{}
+	}
+	if r.Chance(1, 2) {
+		mm := &Meta{Finish: r.Pick(finishPool)}
+		if r.Chance(1, 2) {
+			mm.Usage = &[3]int64{int64(r.Range(-3, 20)), int64(r.Range(-3, 20)), int64(r.Range(-3, 40))}
+		}
+		if r.Chance(2, 5) {
+			mm.HasLP = true
+			switch r.Intn(4) {
+			case 0:
+			case 1:
+				mm.LP = []string{}
+			default:
+				mm.LP = []string{r.Pick([]string{"t1", "t2", "t3"})}
+				if r.Chance(1, 2) {
+					mm.LP = append(mm.LP, "u")
+				}
+			}
+		}
+		m.Meta = mm
+	}
+	switch {
+	case r.Chance(1, 2):
+		m.Extra = genMap(r, p.depth, p.keyTypes)
+	case r.Chance(1, 12):
+		m.Extra = &CV{K: "map", M: map[string]*CV{}}
+	}
+	return m
+}
+
+func newProfile(r *lib.Rng, tier string) *msgProfile {
+	p := &msgProfile{role: r.Pick([]string{"assistant", "assistant", "user", "tool", ""}),
+		name: r.Pick([]string{"", "bob"}), tcid: r.Pick([]string{"", "tc1"}), keyTypes: map[string]int{}, depth: 2}
+	if tier == "thorough" {
+		p.depth = 3
+	}
+	return p
+}
+
+func genMsgCase(r *lib.Rng, tier string) *Case {
+	maxChunks := 7
+	if tier == "thorough" {
+		maxChunks = 14
+	}
+	if r.Chance(1, 5) {
+		// message lists
+		c := &Case{Kind: "msglist"}
+		n := r.Intn(6)
+		width := r.Intn(4)
+		profiles := make([]*msgProfile, width+1)
+		for i := range profiles {
+			profiles[i] = newProfile(r, tier)
+		}
+		for i := 0; i < n; i++ {
+			w := width
+			if r.Chance(1, 25) {
+				w = r.Intn(4)
+			}
+			l := []*Msg{}
+			if w == 0 && r.Chance(1, 2) {
+				l = nil
+			}
+			for j := 0; j < w; j++ {
+				if r.Chance(1, 3) {
+					l = append(l, &Msg{Nil: true})
+				} else {
+					m := genMsg(r, profiles[j%len(profiles)])
+					if len(m.TCs) > 2 {
+						m.TCs = m.TCs[:2]
+					}
+					l = append(l, m)
+				}
+			}
+			c.Lists = append(c.Lists, l)
+		}
+		return c
+	}
+	c := &Case{Kind: "msg", API: r.Intn(4), Chain: false}
+	if c.API == apiChain {
+		c.Chain = true
+	}
+	n := r.Intn(maxChunks + 1)
+	p := newProfile(r, tier)
+	for i := 0; i < n; i++ {
+		c.Msgs = append(c.Msgs, genMsg(r, p))
+	}
+	return c
+}
